@@ -200,8 +200,24 @@ def render_xml(m, rng=None, gui=True):
     o.append("<system>%s</system>\n" % esc(system_text(m)))
     if m.get("queries"):
         o.append("<queries>")
+        for k, v in m.get("model_options", []):
+            o.append('<option key="%s" value="%s"/>' % (esc(k), esc(v)))
         for q in m["queries"]:
-            o.append("<query><formula>%s</formula><comment>c</comment></query>" % esc(q))
+            if isinstance(q, str):
+                o.append("<query><formula>%s</formula><comment>c</comment></query>" % esc(q))
+                continue
+            o.append("<query><formula>%s</formula><comment>%s</comment>" % (esc(q["formula"]), esc(q.get("comment", ""))))
+            for k, v in q.get("options", []):
+                o.append('<option key="%s" value="%s"/>' % (esc(k), esc(v)))
+            ex = q.get("expect")
+            if ex:
+                o.append('<expect outcome="%s" type="%s" value="%s">' % (ex["outcome"], ex["type"], esc(ex["value"])))
+                for r in ex.get("resources", []):
+                    o.append('<resource type="%s" value="%s" unit="%s"/>' % r)
+                o.append("</expect>")
+            for r in q.get("results", []):
+                o.append('<result outcome="%s" type="%s" value="%s" timestamp="2022-11-22 09:36:25 +0100"><option key="--diagnostic" value="0"/><details>d</details></result>' % r)
+            o.append("</query>")
         o.append("</queries>\n")
     o.append("</nta>\n")
     return "".join(o)
@@ -648,6 +664,16 @@ class ModelGen:
                 ty = ("array", ty, dim)
             m["gdecl"].append({"kind": "var", "name": n, "type": ty, "init": None})
             chans.append((n, prefix, dim))
+        if r.random() < 0.12:
+            # channel priority declarations with the default level at every position
+            cn = [c for c, pf, dim in chans if dim is None]
+            if cn:
+                forms = ["chan priority %s < default;" % cn[0], "chan priority default < %s;" % cn[0],
+                         "chan priority %s, default;" % cn[0], "chan priority %s;" % cn[0]]
+                if len(cn) > 1:
+                    forms += ["chan priority %s < default < %s;" % (cn[0], cn[1]), "chan priority %s, %s < default;" % (cn[0], cn[1]),
+                              "chan priority default, %s < %s;" % (cn[0], cn[1])]
+                m["gdecl"].append({"kind": "raw", "name": "", "text": r.choice(forms)})
         if r.random() < 0.5:
             m["gdecl"].append({"kind": "func", "name": "inc", "text": "void inc() { %s = %s + 1; }" % (gints[0], gints[0])})
             has_inc = True
@@ -808,6 +834,23 @@ class ModelGen:
                 # drop uses of parameters: regenerate would be simpler; instead start over
                 return self.model(priorities, branchpoints, params=False, partial=partial)
             procs.append(t["name"])
+        if r.random() < 0.3:
+            qs = []
+            for _ in range(r.randint(1, 3)):
+                q = {"formula": r.choice(["A[] not deadlock", "E<> g0 > 1", "A[] g0 >= 0", "", "E<> true", "A<> g0 == 1"]),
+                     "comment": r.choice(["", "a comment", "EXPECT: T"])}
+                if r.random() < 0.5:
+                    q["options"] = [("--diagnostic", "0")] + ([("--search-order", "1")] if r.random() < 0.5 else [])
+                if r.random() < 0.5:
+                    q["expect"] = {"outcome": r.choice(["success", "failure", "maybe_true", "error"]), "type": r.choice(["quality", "probability", "value"]),
+                                   "value": r.choice(["true", "0.5", "7", ""]),
+                                   "resources": [("time", "1.5", "s")] + ([("memory", "1024", "KiB")] if r.random() < 0.5 else [])}
+                if r.random() < 0.3:
+                    q["results"] = [("success", "quality", "true")]
+                qs.append(q)
+            m["queries"] = qs
+            if r.random() < 0.4:
+                m["model_options"] = [("--statespace-consumption", "0")]
         r.shuffle(procs)
         use_prio = priorities if priorities is not None else (r.random() < 0.25)
         if use_prio and len(procs) > 1:
